@@ -36,11 +36,21 @@ check('C13', 'E2-world',
       'DESIGN.md section 7 C13')
 
 
+check('C03', 'E2-world',
+      'Seeded search over link/component/dataset histories (all link helper kinds, delay windows, rejected calls, queued removal '
+      'messages) on the real DataCollection/LinkManager; a reference model (registered-link multiset, Bellman-Ford reachability with '
+      "glue's cost rule, allowed values along minimum-cost derivations) is validated against every dataset through the public API at "
+      'every quiescent step. Sampling, not proof.',
+      'Link functions are exact on the generated small-integer data; coordinates are axis-separable; no key joins; oracle only at quiescence.',
+      'deterministic simulation: seeded history scheduler + delay windows / rejected calls / exception exits + reference-model trace validation',
+      'DESIGN.md section 7 C03')
+
+
 def na(pid, reason):
     NA[pid] = dict(property_id=pid, reason=reason)
 
 PENDING = 'check under construction in this build round (see DESIGN.md section 7); not claimed until its oracle is proven sound on the unchanged tree'
-for pid in ['C01', 'C02', 'C03', 'C04', 'C05', 'C11', 'C12', 'C14', 'C16', 'C17', 'C18', 'C19']:
+for pid in ['C01', 'C02', 'C04', 'C05', 'C11', 'C12', 'C14', 'C16', 'C17', 'C18', 'C19']:
     na(pid, PENDING)
 na('C08', 'pure function of region parameters and points: no schedule, clock, fault, shared state or history for a simulator to vary (DESIGN.md section 8)')
 na('C09', 'pure translation roi -> subset state; nothing stateful or faulty involved (DESIGN.md section 8)')
